@@ -276,7 +276,8 @@ class Gen:
                 if lx.kind == "raw":
                     off += lx.num
                 exp.append((flag, ln, off, lx.value))
-                kinds.append(lx.kind if lx.kind != "number" else "number:" + lx.num[0])
+                kinds.append("number:" + lx.num[0] if lx.kind == "number" else
+                             ("op:->*" if lx.text == "->*" else lx.kind))
                 if lx.kind == "number":
                     items.append((len(exp) - 1, lx))
                 line += lx.text
@@ -392,26 +393,36 @@ def run_impl(ck, harness, reqs):
     return out
 
 
-def shrink(ck, harness, driver, o, s, same_failure):
-    """greedy byte-level reduction of an input keeping `same_failure(impl_answer, model_answer)` true"""
+def shrink(ck, harness, driver, o, s, same_failure, rounds=14, width=48):
+    """greedy byte-level reduction of an input keeping `same_failure(impl_answer, model_answer)` true;
+    bounded: at most `rounds` batches of at most `width` candidates"""
     cur = s
-    for _ in range(6):
-        changed = False
-        step = max(1, len(cur) // 2)
-        while step >= 1:
-            i = 0
-            while i < len(cur):
-                cand = cur[:i] + cur[i + step:]
-                if cand != cur:
-                    a = run_impl(ck, harness, [(o, cand)])[0]
-                    m = ck.run([driver], input="%s %s\n" % (o, hx(cand))).stdout.strip()
-                    if same_failure(a, m):
-                        cur = cand
-                        changed = True
-                        continue
-                i += step
+    step = max(1, len(cur) // 2)
+    for _ in range(rounds):
+        if len(cur) <= 1:
+            break
+        cands = []
+        i = 0
+        while i < len(cur) and len(cands) < width:
+            c = cur[:i] + cur[i + step:]
+            if c != cur and c not in cands:
+                cands.append(c)
+            i += step
+        if not cands:
+            break
+        ia = run_impl(ck, harness, [(o, c) for c in cands])
+        ma = ck.run([driver], input="".join("%s %s\n" % (o, hx(c)) for c in cands)).stdout.splitlines()
+        ok = None
+        for c, a, m in zip(cands, ia, ma):
+            if same_failure(a or "missing", m):
+                ok = c
+                break
+        if ok is not None:
+            cur = ok
+            step = min(step, max(1, len(cur) // 2))
+        elif step > 1:
             step //= 2
-        if not changed:
+        else:
             break
     return cur
 
@@ -420,7 +431,7 @@ def build_harness(ck):
     objs = []
     jobs = [("h_%s.o" % n, vlib.REPO + "/src/Utilities/%s.cxx" % n) for n in REPO_SOURCES]
     jobs.append(("h_main.o", "C31/harness.cxx"))
-    with ThreadPoolExecutor(max_workers=3) as ex:
+    with ThreadPoolExecutor(max_workers=2) as ex:
         futs = [ex.submit(ck.cxx, name, [src], flags=["-c"], sanitize=True) for name, src in jobs]
         for f in futs:
             objs.append(f.result())
@@ -506,6 +517,21 @@ FIXED = [
 ]
 
 
+# lexemes of some fixed inputs (replays of the defects of the unchanged code)
+FIXED_EXPECTED = {
+    ("-", "0xff"): [(NUMBER, 1, 0, "0xff")],
+    ("-", "x = 0x1F;"): [(STD, 1, 0, "x"), (STD, 1, 2, "="), (NUMBER, 1, 4, "0x1F"), (STD, 1, 8, ";")],
+    ("-", "0b101 + 1"): [(NUMBER, 1, 0, "0b101"), (STD, 1, 6, "+"), (NUMBER, 1, 8, "1")],
+    ("-", "a->*b"): [(STD, 1, 0, "a"), (STD, 1, 1, "->*"), (STD, 1, 4, "b")],
+    ("-", "/* a */ //!< b"): [(COMMENT, 1, 3, "a"), (DOXYBACK, 1, 13, "b")],
+}
+FIXED_KINDS = {
+    ("-", "0xff"): ["number:hex"], ("-", "x = 0x1F;"): ["word", "op", "number:hex", "op"],
+    ("-", "0b101 + 1"): ["number:bin", "op", "number:int"], ("-", "a->*b"): ["word", "op:->*", "word"],
+    ("-", "/* a */ //!< b"): ["ccomment", "cxxcomment"],
+}
+
+
 def run(ck):
     rng = random.Random(ck.seed)
     harness = build_harness(ck)
@@ -516,7 +542,7 @@ def run(ck):
     # ---------------------------------------------------------------- requests
     reqs = []      # (options, input, expected tokens or None, kinds, origin)
     for o, s in FIXED:
-        reqs.append((o, s, None, (), "fixed"))
+        reqs.append((o, s, FIXED_EXPECTED.get((o, s)), FIXED_KINDS.get((o, s), ()), "fixed"))
     n_streams = 700 if ck.quick else 12000
     for i in range(n_streams):
         g = Gen(rng, extended=(i % 3 == 2))
@@ -599,6 +625,8 @@ def run(ck):
             kind = "hang" if a == "HANG" else ("sanitizer" if "Sanitizer" in a or "runtime error" in a else "crash")
             site = "stripComments" if "stripComments" in a else ("parse" if "parseString" in a or "splitLine" in a else "?")
             small = s
+            if "%s:%s:%s" % (SRC, site, kind) in reported:
+                continue
             if len(s) > 40:
                 small = shrink(ck, harness, driver, o, s,
                                lambda x, y: (x.startswith("CRASH") or x == "HANG") and ((x == "HANG") == (a == "HANG")))
@@ -634,22 +662,35 @@ def run(ck):
             got = [t[:4] for t in toks] if a.startswith("ok") else None
             if got != exp:
                 disagreements += 1
-                # first differing lexeme
-                j = 0
-                while got is not None and j < min(len(got), len(exp)) and got[j] == exp[j]:
-                    j += 1
-                cls = kinds[j] if j < len(kinds) else "extra-token"
-                rep2 = dict(rep, expected_tokens=exp, first_difference_index=j, lexeme_class=cls,
-                            expected=exp[j] if j < len(exp) else None,
-                            got=(got[j] if got is not None and j < len(got) else (a[:300] if got is None else None)))
                 if core(a) == core(m):
-                    report("corr:spec:%s" % cls,
-                           "model and implementation agree but differ from the generator's expectation on a %s lexeme "
-                           "(generator or theorem statement wrong)" % cls, rep2, False)
-                else:
-                    report("%s:%s" % (SRC, cls),
-                           "the tokens of %r are not its lexemes: %s lexeme #%d expected %r, got %r" %
-                           (s[:80], cls, j, rep2["expected"], rep2["got"]), rep2, True)
+                    report("corr:spec", "model and implementation agree but differ from the generator's expectation "
+                           "(generator or theorem statement wrong)", dict(rep, expected_tokens=exp), False)
+                    continue
+                if got is None:
+                    # the implementation throws on a stream of well-formed lexemes
+                    key = "%s:rejects:%s" % (SRC, error_class(a))
+                    if key in reported:
+                        continue
+                    small = shrink(ck, harness, driver, o, s,
+                                   lambda x, y: x.startswith("err") and y.startswith("ok") and
+                                   error_class(x) == error_class(a))
+                    sm = ck.run([driver], input="%s %s\n" % (o, hx(small))).stdout.strip()
+                    sa = run_impl(ck, harness, [(o, small)])[0]
+                    lex = [t[3] for t in parse_tokens(sm.split("|")[1])] if sm.startswith("ok") else None
+                    report(key, "CxxTokenizer throws (%s) on %r, which is made of the well-formed lexemes %s" %
+                           (error_class(a), small[:80], lex),
+                           dict(rep, expected_tokens=exp, input_minimised=small, input_minimised_hex=hx(small),
+                                implementation_on_minimised=sa[:1500], model_on_minimised=sm[:1500]), True)
+                    continue
+                j = 0
+                while j < min(len(got), len(exp)) and got[j] == exp[j]:
+                    j += 1
+                cls = (kinds[j] if j < len(kinds) else "extra-token").split("+")[0]
+                rep2 = dict(rep, expected_tokens=exp, first_difference_index=j, lexeme_class=cls,
+                            expected=exp[j] if j < len(exp) else None, got=got[j] if j < len(got) else None)
+                report("%s:%s" % (SRC, cls),
+                       "the tokens of %r are not its lexemes: %s lexeme #%d expected %r, got %r" %
+                       (s[:80], cls, j, rep2["expected"], rep2["got"]), rep2, True)
                 continue
             grammar_ok += 1
             distinct.add(tuple(sorted(set(kinds))))
@@ -682,6 +723,10 @@ def run(ck):
             disagreements += 1
             cls = "error-vs-tokens" if a[:2] != m[:2] else ("error-text" if a.startswith("err") else "tokens")
             small = s
+            rejects = o == "-" and m.startswith("ok") and a.startswith("err")
+            key0 = ("%s:rejects:%s" % (SRC, error_class(a))) if rejects else "corr:%s:%s" % (cls, origin.split(":")[0])
+            if key0 in reported:
+                continue
             if len(s) > 30:
                 small = shrink(ck, harness, driver, o, s, lambda x, y: core(x) != core(y) and x[:2] == a[:2] and y[:2] == m[:2])
             rep2 = dict(rep, input_minimised=small, input_minimised_hex=hx(small))
@@ -692,8 +737,8 @@ def run(ck):
             # while the implementation throws / returns other tokens?  Only the model's answer is available as the
             # reference here, so this is a correspondence failure unless the model's answer is a clean token list of
             # a default-options input that the implementation rejects.
-            if o == "-" and sm.startswith("ok") and sa.startswith("err"):
-                report("%s:rejects:%s" % (SRC, error_class(sa)),
+            if rejects and sm.startswith("ok") and sa.startswith("err"):
+                report(key0,
                        "CxxTokenizer throws (%s) on %r, which is made of well-formed lexemes: %s" %
                        (error_class(sa), small[:80], [t[3] for t in parse_tokens(sm.split("|")[1])][:12]), rep2, True)
             else:
